@@ -1,0 +1,70 @@
+// Copyright 2024, Chef.  All rights reserved.
+// https://github.com/q191201771/lal
+//
+// Use of this source code is governed by a MIT-style license
+// that can be found in the License file.
+
+package rtsp
+
+import (
+	"fmt"
+	"io"
+	"net/http"
+	"strconv"
+
+	"github.com/q191201771/naza/pkg/nazahttp"
+)
+
+// maxHttpMessageBodyLength rtsp信令消息体（比如sdp）的长度上限
+const maxHttpMessageBodyLength = 1024 * 1024
+
+// readHttpRequestMessage
+//
+// 功能同 nazahttp.ReadHttpRequestMessage，区别是检查对端声明的Content-Length：
+// 负数或者超过上限时返回错误，而不是按这个值申请内存（make一个负数长度的切片会panic）
+func readHttpRequestMessage(r nazahttp.HttpReader) (ctx nazahttp.HttpReqMsgCtx, err error) {
+	firstLine, headers, err := nazahttp.ReadHttpHeader(r)
+	if err != nil {
+		return ctx, err
+	}
+	ctx.Method, ctx.Uri, ctx.Version, err = nazahttp.ParseHttpRequestLine(firstLine)
+	if err != nil {
+		return ctx, err
+	}
+	ctx.Headers = headers
+	ctx.Body, err = readHttpMessageBody(r, headers)
+	return ctx, err
+}
+
+// readHttpResponseMessage 见 readHttpRequestMessage
+func readHttpResponseMessage(r nazahttp.HttpReader) (ctx nazahttp.HttpRespMsgCtx, err error) {
+	firstLine, headers, err := nazahttp.ReadHttpHeader(r)
+	if err != nil {
+		return ctx, err
+	}
+	ctx.Version, ctx.StatusCode, ctx.Reason, err = nazahttp.ParseHttpStatusLine(firstLine)
+	if err != nil {
+		return ctx, err
+	}
+	ctx.Headers = headers
+	ctx.Body, err = readHttpMessageBody(r, headers)
+	return ctx, err
+}
+
+// readHttpMessageBody 注意，如果HTTP Header中不包含`Content-Length`，则不会读取HTTP Body，并且err返回值为nil
+func readHttpMessageBody(r nazahttp.HttpReader, headers http.Header) ([]byte, error) {
+	contentLength := headers.Get(nazahttp.HeaderFieldContentLength)
+	if len(contentLength) == 0 {
+		return nil, nil
+	}
+	cl, err := strconv.Atoi(contentLength)
+	if err != nil {
+		return nil, err
+	}
+	if cl < 0 || cl > maxHttpMessageBodyLength {
+		return nil, fmt.Errorf("invalid Content-Length. value=%d", cl)
+	}
+	body := make([]byte, cl)
+	_, err = io.ReadFull(r, body)
+	return body, err
+}
